@@ -2,6 +2,7 @@ package main
 
 import (
 	"fmt"
+	"go/types"
 	"strconv"
 	"strings"
 
@@ -241,10 +242,10 @@ func init() {
 			return &Val{T: r, S: SRef("strings_Reader")}
 		},
 		"bufio.NewReader": func(fr *Frame, ins ssa.Instruction, a []*Val, rs *Sort) *Val {
-			return fr.newBufioReader(a[0])
+			return fr.newBufioReader(ins, a[0])
 		},
 		"bufio.NewReaderSize": func(fr *Frame, ins ssa.Instruction, a []*Val, rs *Sort) *Val {
-			return fr.newBufioReader(a[0])
+			return fr.newBufioReader(ins, a[0])
 		},
 		"(*bufio.Reader).ReadByte": func(fr *Frame, ins ssa.Instruction, a []*Val, rs *Sort) *Val {
 			// one byte is delivered, or an error (always at end of stream) and nothing is consumed
@@ -687,10 +688,23 @@ func readerRef(v *Val) string {
 // newBufioReader: a buffered reader delivers the bytes of its source. For an in-memory source (bytes.Buffer,
 // strings.Reader) these are the source's remaining bytes; for any other source (a network connection) they
 // are all the bytes the source will ever deliver - fixed but unknown.
-func (fr *Frame) newBufioReader(src *Val) *Val {
+func (fr *Frame) newBufioReader(ins ssa.Instruction, src *Val) *Val {
 	ex := fr.ex
 	r := ex.alloc(fr.cur, "bufreader")
 	inMem := false
+	// the stream model identifies the reader's bytes with the bytes of its source (a connection, an in-memory
+	// buffer). A reader type of the package under verification in between can drop, add or reorder bytes in a
+	// way that depends on how they arrive: its Read is not modelled, so the identification is an obligation.
+	if src.Dyn != nil {
+		t := src.Dyn
+		if pt, ok := t.(*types.Pointer); ok {
+			t = pt.Elem()
+		}
+		if n, ok := t.(*types.Named); ok && n.Obj().Pkg() != nil && ex.pkg != nil && n.Obj().Pkg() == ex.pkg.Pkg {
+			ex.vc.oblige("stream-source", ex.oblName(fr.key+"/stream-source@"+n.Obj().Name()), fr.curReach, "false",
+				"the buffered reader is built over "+src.Dyn.String()+", a reader of this package whose Read is not under contract: the bytes the decoder sees are no longer known to be the connection's bytes in order", ex.posOf(ins.Pos()), nil)
+		}
+	}
 	if src.Dyn != nil {
 		switch src.Dyn.String() {
 		case "*bytes.Buffer", "*strings.Reader":
